@@ -17,6 +17,9 @@ import ElfioVerif.Model.Inspect
 import ElfioVerif.Props.C13
 import ElfioVerif.Props.C08
 import ElfioVerif.Lemmas.Dynamic
+import ElfioVerif.Lemmas.SymbolsTie
+import ElfioVerif.Lemmas.TablesTie
+import ElfioVerif.Lemmas.SymTie
 namespace ElfioVerif
 open Gen
 namespace Inspect
@@ -112,6 +115,7 @@ theorem notes_total (e : Enc) (src : NoteSrc) (hok : C13.SrcOk src)
     refine ⟨[], ?_, fun k => ⟨none, C13.get_note_absent e _ [] k (by simp)⟩⟩
     unfold Note.process
     rw [walk_empty_eq]
+    try rw [NoteTie.walk_start]
     simp [pure, Except.pure]
   | some a => exact C13.get_note_total e ⟨some a, size⟩ hok (hs a rfl)
 
@@ -206,6 +210,7 @@ theorem skipNul_total (a : Bytes) (size : BitVec 64) (hlen : a.length = size.toN
     intro i hi hf
     have hs := size.isLt
     unfold Modinfo.skipNul
+    simp only [ModTie.skip_cond_eq, ModTie.skipByteIsNul_eq, ModTie.skip_incr, decide_eq_true_eq]
     by_cases hc : i.toNat < size.toNat
     · have hcond : mod_loop_cond i size = true := by
         unfold mod_loop_cond; rw [BitVec.ult]; simpa using hc
@@ -281,7 +286,7 @@ theorem parseLoop_total (a : Bytes) (size : BitVec 64) (hlen : a.length = size.t
     terminator behind the data (arbitrary content: records without `=`, without a final NUL, runs
     of NULs, empty), the constructor's parser returns; the getters only look at its result. -/
 theorem modinfo_total {b : SecBuf} (h : Ready b) : ∃ c, Modinfo.parse b = .ok c := by
-  unfold Modinfo.parse
+  rw [ModTie.parse_eq]
   rw [getData_of_settled h.settled]
   cases hd : b.data with
   | none => exact ⟨[], rfl⟩
@@ -380,6 +385,7 @@ theorem rawEntryOn_total (c32 : Bool) (e : Enc) (sec : SecBuf) (hb : BufOk sec) 
   have hq2 : sec.size.toNat / sec.entSize.toNat ≤ sec.size.toNat := Nat.div_le_self _ _
   have one : BitVec.signExtend 64 1#32 = 1#64 := by decide
   unfold DynAcc.rawEntryOn
+  dyn_tie
   cases c32
   · -- ELF64
     simp only [Bool.false_eq_true, if_false]
@@ -469,6 +475,7 @@ theorem getEntryCore_total (a : DynAcc) (h : DynReady a) (count idx : BitVec 64)
     (hc : count.toNat ≤ a.sec.size.toNat / a.sec.entSize.toNat) :
     ∃ r, a.getEntryCore count idx = .ok (a, r) := by
   unfold DynAcc.getEntryCore
+  dyn_tie
   by_cases g0 : dyn_get_index_invalid idx count = true
   · rw [if_pos g0]; exact ⟨_, rfl⟩
   · rw [if_neg g0]
@@ -496,6 +503,7 @@ theorem numLoop_total (a : DynAcc) (h : DynReady a) :
   | succ f ih =>
     intro i prev
     unfold DynAcc.numLoop
+    dyn_tie
     split
     · obtain ⟨r, hr⟩ := getEntryCore_total a h a.cache i h.cache
       simp only [hr, bind, Except.bind]
@@ -520,6 +528,7 @@ theorem dyn_entriesNum_total (a : DynAcc) (h : DynReady a) :
     ∃ n, a.entriesNum = .ok ({ a with cache := n }, n) ∧
       n.toNat ≤ a.sec.size.toNat / a.sec.entSize.toNat := by
   unfold DynAcc.entriesNum
+  dyn_tie
   by_cases hr : dyn_num_recompute a.cache a.sec.entSize a.needed = true
   · rw [if_pos hr]
     have hne : ¬ (a.sec.entSize = 0) := by
@@ -640,7 +649,7 @@ theorem sym_num_total (t : SymTab) : ∃ n, t.symbolsNum = .ok n ∧
       unfold sym_num_div; rw [BitVec.toNat_udiv]
     · rw [if_neg hc]
       exact ⟨0, rfl, fun h => absurd rfl h⟩
-  unfold SymTab.symbolsNum
+  rw [SymTab.symbolsNum_hand]
   cases hcl : t.cfg.cls
   · have := key sym_num_min32 16 (by decide) (by decide) (by rw [hcl]; rfl)
     rw [hcl] at this
@@ -653,7 +662,7 @@ theorem sym_num_total (t : SymTab) : ∃ n, t.symbolsNum = .ok n ∧
     section with any linked string section (st_name out of range, unterminated strings) -/
 theorem sym_get_total (t : SymTab) (h : SymReady t) (idx : BitVec 64) (str : Bytes) (a : Attrs) :
     ∃ r, t.getSymbol idx str a = .ok r := by
-  unfold SymTab.getSymbol
+  rw [SymTie.getSymbol_unfold]
   simp only [secData_of_settled h.sym]
   unfold SymTab.guardNum
   cases hd : t.sym.data with
